@@ -1,10 +1,10 @@
 package main
 
 import (
-	"math"
 	"fmt"
 	"go/token"
 	"go/types"
+	"math"
 	"sort"
 	"strings"
 
@@ -42,7 +42,40 @@ func isMidiPathClass(cl *chanClass) bool {
 	return false
 }
 
+// transportRules: the C15 rules that other properties import (relays, fan-out, close ordering), without C15's own imports.
+func transportRules(c *Ctx) {
+	cf := buildChanFlow(c.P)
+	classes := cf.Classes()
+	var midiClasses []*chanClass
+	for _, cl := range classes {
+		if isMidiPathClass(cl) {
+			midiClasses = append(midiClasses, cl)
+		}
+	}
+	ruleOneReceiver(c, midiClasses)
+	ruleForwardOnce(c, cf, midiClasses)
+	ruleFanOut(c)
+	ruleNoSendAfterClose(c, midiClasses)
+}
+
+// constructorRules: R5.1 alone (each constructor is a straight-line function returning a fresh 3-byte value).
+func constructorRules(c *Ctx) {
+	dv := newDev(c, "R5.0")
+	if dv.ok {
+		ruleCtorShape(c, dv)
+	}
+}
+
+// noSharedStateRules: R16.5 alone.
+func noSharedStateRules(c *Ctx) {
+	dv := newDev(c, "R16.0")
+	if dv.ok && dv.fn["NewDevice"] != nil {
+		ruleNoCrossTalk(c, dv)
+	}
+}
+
 func checkC15(c *Ctx) {
+	c.importRules(constructorRules, []string{"R5.1"}, "R15.6") // the transport queues references: a message must be its own fresh value
 	cf := buildChanFlow(c.P)
 	classes := cf.Classes()
 	var midiClasses []*chanClass
@@ -78,6 +111,16 @@ func ruleOneReceiver(c *Ctx, classes []*chanClass) {
 		if len(cl.Sends) == 0 && len(fns) == 0 {
 			c.Trivial("R15.1", key+"/unused", pos, "channel is created but neither sent to nor received from")
 			continue
+		}
+		// a second receiver is acceptable when it only discards (`for range ch {}`) and is started after the consumer it
+		// stands in for has been joined: the shutdown drain that keeps the producer moving until the channel is removed
+		if len(fns) > 1 {
+			for f := range fns {
+				if why, ok := discardingDrain(c, f); ok && len(fns) > 1 {
+					delete(fns, f)
+					c.OK("R15.1", key+"/drain@"+shortFn(f), c.P.Pos(f.Pos()), why)
+				}
+			}
 		}
 		if len(fns) != 1 {
 			var names []string
@@ -484,6 +527,12 @@ func ruleFanOut(c *Ctx) {
 			continue
 		}
 		key := "utils.DynamicFanOut." + bo.Root + "/send(outputs[*])-under(mutex)"
+		// harmless if no consumer ever stops receiving before its output is removed: every DespawnOutput call site
+		// starts, beforehand, a goroutine that drains the very channel SpawnOutput handed out for that id
+		if why, ok := drainedBeforeDespawn(c, despawn, spawn); ok {
+			c.OK("R15.4", key, c.P.Pos(bo.Instr.Pos()), "the delivery loop sends while holding the mutex, but "+why)
+			continue
+		}
 		c.Bad("R15.4", key, c.P.Pos(bo.Instr.Pos()), "blocking send to an output channel while holding the mutex that DespawnOutput needs: when a device has stopped reading and its buffer is full, the delivery loop blocks inside the critical section, DespawnOutput of that very device blocks on Lock, removal never completes and MIDI input stops for all devices")
 	}
 	nb := 0
@@ -948,4 +997,209 @@ func missGuard(vw *FnView, b *ssa.BasicBlock, extra []Atom, keyTerm string, outp
 		}
 	}
 	return false
+}
+
+// drainedBeforeDespawn: every static call site of DespawnOutput(id) is dominated by a `go` statement whose function
+// receives in a loop from the channel that the SpawnOutput call which produced id returned.
+func drainedBeforeDespawn(c *Ctx, despawn, spawn *ssa.Function) (string, bool) {
+	isInst := func(callee, want *ssa.Function) bool {
+		if callee == nil {
+			return false
+		}
+		if callee == want {
+			return true
+		}
+		return callee.Origin() != nil && want.Origin() != nil && callee.Origin() == want.Origin() || callee.Origin() == want || want.Origin() == callee
+	}
+	n := 0
+	for _, fn := range c.P.Funcs {
+		for _, b := range fn.Blocks {
+			for _, in := range b.Instrs {
+				call, ok := in.(*ssa.Call)
+				if !ok || !isInst(call.Call.StaticCallee(), despawn) || len(call.Call.Args) < 2 {
+					continue
+				}
+				n++
+				// id = extract #0 of a SpawnOutput call in the same function
+				ex, ok := call.Call.Args[1].(*ssa.Extract)
+				if !ok {
+					return "", false
+				}
+				sp, ok := ex.Tuple.(*ssa.Call)
+				if !ok || !isInst(sp.Call.StaticCallee(), spawn) || ex.Index != 0 {
+					return "", false
+				}
+				var ch ssa.Value
+				for _, r := range *sp.Referrers() {
+					if e2, ok := r.(*ssa.Extract); ok && e2.Index == 1 {
+						ch = e2
+					}
+				}
+				if ch == nil {
+					return "", false
+				}
+				drained := false
+				for _, gb := range fn.Blocks {
+					for _, gin := range gb.Instrs {
+						g, ok := gin.(*ssa.Go)
+						if !ok || !(gb == b && instrBefore(g, call) || gb != b && gb.Dominates(b)) {
+							continue
+						}
+						target := closureOf(g.Call.Value)
+						if target == nil {
+							target = g.Call.StaticCallee()
+						}
+						if target == nil {
+							continue
+						}
+						// which value of the goroutine function is the channel: a free variable bound to ch or a parameter given ch
+						var inside []ssa.Value
+						if mc, ok := g.Call.Value.(*ssa.MakeClosure); ok {
+							for i, bnd := range mc.Bindings {
+								if i >= len(target.FreeVars) {
+									continue
+								}
+								if bnd == ch {
+									inside = append(inside, target.FreeVars[i])
+								}
+								// captured by reference: the binding is the variable's cell, which holds ch
+								if a, isAlloc := bnd.(*ssa.Alloc); isAlloc {
+									if w := wholeStore(a); w == ch {
+										for _, tb := range target.Blocks {
+											for _, tin := range tb.Instrs {
+												if ld, isLd := tin.(*ssa.UnOp); isLd && ld.Op == token.MUL && ld.X == ssa.Value(target.FreeVars[i]) {
+													inside = append(inside, ld)
+												}
+											}
+										}
+									}
+								}
+							}
+						}
+						for i, a := range g.Call.Args {
+							if a == ch && i < len(target.Params) {
+								inside = append(inside, target.Params[i])
+							}
+						}
+						for _, tb := range target.Blocks {
+							for _, tin := range tb.Instrs {
+								var src ssa.Value
+								switch x := tin.(type) {
+								case *ssa.UnOp:
+									if x.Op == token.ARROW {
+										src = x.X
+									}
+								case *ssa.Range:
+									src = x.X
+								}
+								if src == nil {
+									continue
+								}
+								for _, v := range inside {
+									if src == v && (inCycle(tb) || isRangeOverChan(tin)) {
+										drained = true
+									}
+								}
+							}
+						}
+					}
+				}
+				if !drained {
+					return "", false
+				}
+			}
+		}
+	}
+	if n == 0 {
+		return "", false
+	}
+	return fmt.Sprintf("every DespawnOutput call site (%d) first starts a goroutine that keeps receiving from that output until it is closed: a consumer that stopped reading cannot keep the delivery loop inside the critical section", n), true
+}
+
+func isRangeOverChan(in ssa.Instruction) bool {
+	r, ok := in.(*ssa.Range)
+	if !ok {
+		return false
+	}
+	_, isChan := r.X.Type().Underlying().(*types.Chan)
+	return isChan
+}
+
+
+// discardingDrain: f is a goroutine body that only receives from one channel in a loop and ignores what it receives,
+// and its go statement is dominated by a call of (*Device).ProcessEvents in the same function - i.e. it starts after the
+// device, whose ProcessEvents joins its own MIDI-input goroutine before returning (R16.2), has stopped reading.
+func discardingDrain(c *Ctx, f *ssa.Function) (string, bool) {
+	if f.Parent() == nil || len(f.Blocks) == 0 {
+		return "", false
+	}
+	recvs := 0
+	for _, b := range f.Blocks {
+		for _, in := range b.Instrs {
+			switch x := in.(type) {
+			case *ssa.Range, *ssa.Jump, *ssa.If, *ssa.Return, *ssa.DebugRef, *ssa.RunDefers:
+			case *ssa.Next:
+				recvs++
+			case *ssa.Extract:
+				// only the "ok" component may be used: (value, ok) for a receive, (ok, key, value) for an iterator
+				okIdx := 1
+				if _, isNext := x.Tuple.(*ssa.Next); isNext {
+					okIdx = 0
+				}
+				if x.Index != okIdx {
+					if refs := x.Referrers(); refs != nil {
+						for _, r := range *refs {
+							if _, isDbg := r.(*ssa.DebugRef); !isDbg {
+								return "", false
+							}
+						}
+					}
+				}
+			case *ssa.UnOp:
+				if x.Op == token.ARROW {
+					recvs++
+					if x.Referrers() != nil {
+						for _, r := range *x.Referrers() {
+							if ex, ok := r.(*ssa.Extract); ok && ex.Index == 1 {
+								continue
+							}
+							if _, isDbg := r.(*ssa.DebugRef); isDbg {
+								continue
+							}
+							return "", false
+						}
+					}
+				} else if x.Op != token.MUL { // loads of the captured channel variable
+					return "", false
+				}
+			default:
+				return "", false
+			}
+		}
+	}
+	if recvs == 0 {
+		return "", false
+	}
+	host := f.Parent()
+	pe := c.P.Func(pkgDevice, "Device", "ProcessEvents")
+	for _, b := range host.Blocks {
+		for _, in := range b.Instrs {
+			g, ok := in.(*ssa.Go)
+			if !ok || closureOf(g.Call.Value) != f || inCycle(b) {
+				continue
+			}
+			for _, pb := range host.Blocks {
+				for _, pin := range pb.Instrs {
+					call, ok := pin.(*ssa.Call)
+					if !ok || pe == nil || call.Call.StaticCallee() != pe {
+						continue
+					}
+					if pb == b && instrBefore(call, g) || pb != b && pb.Dominates(b) {
+						return "discards what it receives and is started only after the device's ProcessEvents (which joins the device's own reader, R16.2) has returned", true
+					}
+				}
+			}
+		}
+	}
+	return "", false
 }
